@@ -19,6 +19,7 @@ RULE = ("wrapper chains of length 1..7 over synthetic manager classes (three cla
 ASSUMPTIONS = ["the hooks' own log is the observation channel; the model is the loop of the property statement"]
 MIN_NONTRIVIAL = {"quick": 5000, "thorough": 100000}
 REQUIRED_COUNTERS = {"cases_cycle": {"quick": 300, "thorough": 5000},
+                     "cases_elaborate_substitutes_obj": {"quick": 1000, "thorough": 20000},
                      "cases_prune": {"quick": 500, "thorough": 5000},
                      "cases_gcm_exiting_path": {"quick": 300, "thorough": 5000},
                      "cases_gcm_inner_stack_path": {"quick": 300, "thorough": 5000},
@@ -99,6 +100,11 @@ def worker(spec):
             ctx.children = [Context(obj=None, is_async=False)]
         if "inner" in e:
             ctx.inner_stack = Stack(root=None, frames=[])
+        tgt = PLAN[id(mgr)].get("setobj")
+        if tgt is not None:
+            # like the built-in Trio nursery hook: the elaborate hook substitutes the manager itself;
+            # unwrapping must then continue from the substituted object
+            ctx.obj = tgt
 
     unwrap_context.register(WA)(do_unwrap)
     unwrap_context.register(WC)(do_unwrap)
@@ -157,6 +163,8 @@ def worker(spec):
     def is_gcm(m):
         return hasattr(m, "gen")
 
+    model_state = {}
+
     def model(first, exiting):
         """the loop of the statement; returns (expected (event, id) log, outcome, final manager)"""
         log = []
@@ -164,6 +172,10 @@ def worker(spec):
         for _ in range(100):
             kind = PLAN[id(obj)]["kind"]
             log.append(("elab", id(obj)))
+            model_state["last_elab"] = obj
+            if PLAN[id(obj)].get("setobj") is not None and not is_gcm(obj):
+                obj = PLAN[id(obj)]["setobj"]      # context.obj was substituted by the elaborate hook
+                kind = PLAN[id(obj)]["kind"]
             if kind == "gcm_twin":
                 # equal-but-not-identical code object: no hook is dispatched, unwrapping stops
                 return log, "stop", obj
@@ -229,6 +241,19 @@ def worker(spec):
                 u = ms[k + 1]
             PLAN[id(m)] = dict(kind=kinds[k], unwrap=u,
                                elab=rng.sample(["desc", "children", "inner"], rng.randint(0, 3)))
+        # some elaborate hooks substitute context.obj by a manager of another dispatch type
+        for k, m in enumerate(list(ms)):
+            if not is_gcm(m) and rng.random() < 0.12:
+                other_kind = "WC" if kinds[k] in ("WA", "WB") else "WA"
+                sub = make_manager(other_kind, 100 + k)
+                ms.append(sub)
+                kinds.append(other_kind)
+                PLAN[id(sub)] = dict(kind=other_kind, unwrap=rng.choice([None, PRUNE, PLAN[id(m)]["unwrap"]]),
+                                     elab=rng.sample(["desc", "children", "inner"], rng.randint(0, 2)))
+                if PLAN[id(sub)]["unwrap"] is sub:
+                    PLAN[id(sub)]["unwrap"] = None
+                PLAN[id(m)]["setobj"] = sub
+                res.count("cases_elaborate_substitutes_obj")
         exiting = rng.random() < 0.35
         first = ms[0]
         is_async = kinds[0] in ("WC", "agcm")
@@ -267,9 +292,13 @@ def worker(spec):
                     probs.append("call %d: inner_stack/children not reset before re-elaboration" % j)
                 if len(x) > 6 and not x[6]:
                     probs.append("call %d: generator hook did not receive the generator's own frame" % j)
-            if final is not None and not is_gcm(final):
-                e = PLAN[id(final)]["elab"]
-                if ("desc" in e) != (ctx.description == "d%d" % final.i):
+            last = model_state.get("last_elab")
+            if final is not None and last is not None and not is_gcm(last):
+                # description/children are those set by the hook that elaborated last (if an elaborate
+                # hook substituted context.obj, the substitute itself is not re-elaborated)
+                e = PLAN[id(last)]["elab"]
+                final_i = last.i
+                if ("desc" in e) != (ctx.description == "d%d" % final_i):
                     probs.append("description of the final manager not in effect")
                 if ("children" in e) != (len(ctx.children) == 1):
                     probs.append("children of the final manager not in effect")
